@@ -137,6 +137,9 @@ Classify(body) ==
 ---------------------------------------------------------------------------
 (* Part 2: the stream connection machine                                   *)
 
+IdleDefault == 2        \* configured idle timeout = write timeout = 2 half ticks
+IdleLong == 4           \* what service kind "rlong" asks for
+IdleShort == 1          \* what service kind "rshort" asks for
 Nil == [r |-> 0, kind |-> "nil", k |-> 0]
 Resp(r, kind, k) == [r |-> r, kind |-> kind, k |-> k]
 
@@ -144,6 +147,9 @@ Resp(r, kind, k) == [r |-> r, kind |-> kind, k |-> k]
 IR  == [t |-> "resp", fb |-> "none"]
 IB  == [t |-> "resp", fb |-> "begin"]      \* ServiceFeedback::BeginTransaction
 IE  == [t |-> "resp", fb |-> "end"]        \* ServiceFeedback::EndTransaction
+IRL == [t |-> "resp", fb |-> "long"]       \* ServiceFeedback::Reconfigure { idle_timeout: longer }
+IRS == [t |-> "resp", fb |-> "short"]      \* ServiceFeedback::Reconfigure { idle_timeout: shorter }
+IBig == [t |-> "big", fb |-> "none"]       \* (datagram machine) an answer of BigLen octets
 IFl == [t |-> "fail", fb |-> "none"]       \* Err(ServiceError)
 IFe == [t |-> "formerr", fb |-> "none"]    \* the FORMERR task for QR=1
 Script(svc) ==
@@ -154,6 +160,9 @@ Script(svc) ==
     [] svc = "rfail"   -> <<IR, IFl, IR>>
     [] svc = "txn"     -> <<IB, IR, IE>>
     [] svc = "echo"    -> <<IR>>
+    [] svc = "rlong"   -> <<IRL>>
+    [] svc = "rshort"  -> <<IRS>>
+    [] svc = "big"     -> <<IBig>>
     [] OTHER           -> <<>>
 
 Task(items, permits, disp) ==
@@ -168,6 +177,8 @@ InitConn(dv, qcap) ==
    cur |-> Nil, cmd |-> FALSE, ab |-> FALSE, q |-> <<>>, qclosed |-> FALSE,
    credit |-> 0, age |-> 0, wage |-> 0, tasks |-> NoTasks, wrote |-> <<>>,
    lost |-> {}, yielded |-> <<>>,
+   itmo |-> IdleDefault,  \* idle timeout in force, in half ticks (connection Config,
+                          \* changed by ServiceFeedback::Reconfigure via update_config)
    np |-> 1,        \* pieces the transport takes to accept one frame (partial writes)
    pd |-> 0,        \* pieces of the frame in `cur` already on the wire
    torn |-> FALSE,  \* the connection ended with a partial frame on the wire
@@ -211,8 +222,11 @@ TaskStep(s, r) ==
               LET st2  == IF it.fb = "begin" THEN "txn"
                           ELSE IF it.fb = "end" THEN "normal" ELSE t.status
                   resp == Resp(r, "ans", t.n + 1)
+                  \* process_feedback runs before the response is enqueued
+                  tmo  == IF it.fb = "long" THEN IdleLong
+                          ELSE IF it.fb = "short" THEN IdleShort ELSE s.itmo
               IN TryEnq([s EXCEPT !.tasks[r] = [t1 EXCEPT !.status = st2, !.n = @ + 1],
-                                  !.yielded = Append(@, resp)], r, resp)
+                                  !.yielded = Append(@, resp), !.itmo = tmo], r, resp)
 
 Close(s) == [s EXCEPT !.st = "closed", !.mode = "done", !.cur = Nil, !.q = <<>>,
                       !.torn = @ \/ s.pd > 0, !.pd = 0]
@@ -242,7 +256,7 @@ LoopBranch(s) ==
   ELSE IF s.mode = "select" THEN
          IF s.cmd THEN "cmd"
          ELSE IF s.q # <<>> THEN "take"
-         ELSE IF s.age >= 2 THEN "idle"
+         ELSE IF s.age >= s.itmo THEN "idle"       \* the value in force now
          ELSE IF s.inb # <<>> /\ Head(s.inb).t # "partial" THEN "read"
          ELSE "none"
   ELSE IF s.mode = "write" THEN
@@ -294,7 +308,9 @@ LoopRun(s) == IF LoopBranch(s) # "none" THEN LoopRun(LoopStep(s)) ELSE s
 
 RECURSIVE TaskRun(_, _)
 TaskRun(s, r) ==
-  IF CanRetry(s, r) THEN TaskStep(s, r)
+  \* a retry that succeeds returns into the dispatch loop, which polls the
+  \* response stream again in the same task poll
+  IF CanRetry(s, r) THEN TaskRun(TaskStep(s, r), r)
   ELSE IF CanYield(s, r) THEN TaskRun(TaskStep(s, r), r)
   ELSE s
 
@@ -333,7 +349,7 @@ EnvRelease(s, r) == [s EXCEPT !.tasks[r].permits = @ + 1]
 EnvCredit(s, n) == [s EXCEPT !.credit = @ + n]
 EnvHalfTick(s) ==
   IF s.st # "open" THEN s
-  ELSE [s EXCEPT !.age = Min(2, @ + 1),
+  ELSE [s EXCEPT !.age = Min(IdleLong, @ + 1),
                  !.wage = IF s.mode \in {"write", "flushwrite"} THEN Min(2, @ + 1) ELSE @]
 EnvAbort(s) ==
   LET eof == [t |-> "eof", r |-> 0, svc |-> ""]
@@ -387,14 +403,34 @@ ClosedIsFinal(s, t) == s.st = "closed" => (t.st = "closed" /\ t.wrote = s.wrote)
 (* bit gives FORMERR, anything else goes to the service; every response    *)
 (* item is sent at once.                                                   *)
 
-InitDg == [tasks |-> NoTasks, sent |-> <<>>, yielded |-> <<>>]
+\* limit: Config::max_response_size in force (DgramServer::reconfigure);
+\* hints: the limit each request was received under (UdpTransportContext is
+\* built when the datagram is received); sendfail: transient errors armed
+\* on the socket's send side; alive: the receive loop is running
+InitDg == [tasks |-> NoTasks, sent |-> <<>>, yielded |-> <<>>, limit |-> 1232,
+           hints |-> [x \in {} |-> 0], bigs |-> {}, sendfail |-> 0, unsent |-> {}, alive |-> TRUE]
+
+BigLen == 1840
+BigReq(r) == [udp |-> TRUE, edns |-> TRUE, csize |-> 4096, qlen |-> 9 + r, opts |-> "none"]
+BigSvc(r) == [len |-> BigLen, optlen |-> 0, body |-> BigLen - 12 - (9 + r), tc |-> FALSE]
 
 DgRecv(d, what, r, svc) ==        \* what: query | short (QR clear), reply | shortqr
   IF what \in {"reply", "shortqr"}
   THEN LET resp == Resp(r, "formerr", 0)
-       IN [d EXCEPT !.sent = Append(@, resp), !.yielded = Append(@, resp),
+       IN [d EXCEPT !.yielded = Append(@, resp),
+                    !.sent = IF d.sendfail > 0 THEN @ ELSE Append(@, resp),
+                    !.unsent = IF d.sendfail > 0 THEN @ \cup {resp} ELSE @,
+                    !.sendfail = IF @ > 0 THEN @ - 1 ELSE 0,
                     !.tasks = @ @@ (r :> Task(<<>>, 0, TRUE))]
-  ELSE [d EXCEPT !.tasks = @ @@ (r :> Task(Script(svc), IF svc = "echo" THEN 1 ELSE 0, TRUE))]
+  ELSE [d EXCEPT !.tasks = @ @@ (r :> Task(Script(svc), IF svc = "echo" THEN 1 ELSE 0, TRUE)),
+                 !.hints = @ @@ (r :> d.limit),
+                 !.bigs = IF svc = "big" THEN @ \cup {r} ELSE @]
+
+\* run_until_error: a command, spurious readiness (WouldBlock) and a failed
+\* send leave the loop running
+DgReconf(d, limit) == [d EXCEPT !.limit = limit]
+DgSpurious(d) == d
+DgSendErr(d) == [d EXCEPT !.sendfail = @ + 1]
 
 DgCanYield(d, r) ==
   /\ r \in DOMAIN d.tasks
@@ -404,9 +440,16 @@ DgYield(d, r) ==
   LET t  == d.tasks[r]
       it == Head(t.items)
       t1 == [t EXCEPT !.items = Tail(@), !.permits = @ - 1]
-      resp == IF it.t = "fail" THEN Resp(r, "servfail", 0) ELSE Resp(r, "ans", t.n + 1)
+      \* the limit in force when the request was received decides
+      cut == it.t = "big" /\ Final({}, BigReq(r), d.hints[r], BigSvc(r)).tc
+      resp == IF it.t = "fail" THEN Resp(r, "servfail", 0)
+              ELSE IF cut THEN Resp(r, "trunc", 0)
+              ELSE Resp(r, "ans", t.n + 1)
       t2 == IF it.t = "fail" THEN [t1 EXCEPT !.status = "abort"] ELSE [t1 EXCEPT !.n = @ + 1]
-  IN [d EXCEPT !.tasks[r] = t2, !.sent = Append(@, resp), !.yielded = Append(@, resp)]
+  IN [d EXCEPT !.tasks[r] = t2, !.yielded = Append(@, resp),
+               !.sent = IF d.sendfail > 0 THEN @ ELSE Append(@, resp),
+               !.unsent = IF d.sendfail > 0 THEN @ \cup {resp} ELSE @,
+               !.sendfail = IF @ > 0 THEN @ - 1 ELSE 0]
 
 RECURSIVE DgSettle(_)
 DgSettle(d) ==
@@ -415,5 +458,19 @@ DgSettle(d) ==
 
 DgRelease(d, r) == [d EXCEPT !.tasks[r].permits = @ + 1]
 DgProj(d) == [i \in 1..Len(d.sent) |-> <<d.sent[i].r, d.sent[i].kind, d.sent[i].k>>]
-DgEachOnce(d) == d.sent = d.yielded /\ NoDup(d.sent)
+\* every response is sent exactly once, in order, except those that hit a
+\* socket send error; nothing but a shutdown stops the receive loop
+DgEachOnce(d) == /\ d.sent = SelectSeq(d.yielded, LAMBDA x : x \notin d.unsent)
+                 /\ NoDup(d.sent)
+DgLoopAlive(d) == d.alive
+\* UdpSize for the datagram server: what is sent for a big answer fits
+\* what the property allows under the limit in force when the request was
+\* received, and it is cut (TC) exactly when it had to be
+DgSizeOK(d) ==
+  \A i \in 1..Len(d.sent) :
+     LET x == d.sent[i] IN
+     x.r \in d.bigs =>
+       LET f == Final({}, BigReq(x.r), d.hints[x.r], BigSvc(x.r))
+       IN /\ f.len <= Allowed(BigReq(x.r), d.hints[x.r])
+          /\ (x.kind = "trunc") = f.tc
 =============================================================================
